@@ -1,78 +1,50 @@
 #!/usr/bin/env python3
-"""Regenerates /verif/MANIFEST.json from the table below (single source of truth)."""
-import json, os
+"""Regenerates /verif/MANIFEST.json from tools/claims/<ID>.json (one file per claimed property)."""
+import json, os, glob
 ROOT = os.path.dirname(os.path.dirname(os.path.abspath(__file__)))
 props = [json.loads(l) for l in open(os.path.join(ROOT, 'properties.jsonl'))]
-
-MC = 'model_checking'
-EX = 'exploration'
-# id -> (category, technique, text, note, design_ref, engine)
-claimed = {
- 'C09': (MC, 'stateless deviation-bounded exhaustive exploration of the real command processor / dispatchers / CU resource pool under an explorer-driven environment',
-   'Real cp.CommandProcessor with its real dispatchers (Builder configuration: 8 round-robin; through the verif hook also 1-2 dispatchers with round-robin, greedy and partition) and real CU resource pool under the real akita SerialEngine. The environment plays the driver and 1-3 compute units with finite resources (SIMDs, wavefront slots, SGPR, VGPR, LDS), answering each MapWGReq individually or batched like the emulation CU. 94 scenarios over 8 kernel shapes (fits-twice, one-at-a-time, zero demand, whole CU, dynamic LDS, filtered, non-granular demand, 1-WG) incl. 2-3 overlapping launches. Every vector of environment answers (completion order/delay, stalls of the CU-facing and driver-facing wires, launch delays) with <= 2 (quick) / <= 3 (thorough) non-default answers is executed; an independent occupancy model checks every map request (exactly once, inside the grid/filter, slots/SGPR/VGPR/LDS within capacity and disjoint from resident work-groups), one LaunchKernelRsp after the last completion, and a whole-CU probe kernel at the end makes any resource leak visible as non-completion at quiescence.',
-   'Trusted: akita SerialEngine/Port; the occupancy model (granularity 16 SGPR / 4 VGPR / 256 B LDS as in the dispatcher). 1-D kernels with work-group sizes that are multiples of 64. Two genuine defects found here were repaired by fix: commits (dynamic LDS accounting; batched completion across dispatchers).',
-   'DESIGN.md §4 C09', 'E1+E4'),
- 'C15': (MC, 'stateless deviation-bounded exhaustive exploration of the real component under an explorer-driven environment',
-   'Real rob.ReorderBuffer under the real akita SerialEngine, closed by an explorer-owned environment (requester, memory, controller). '
-   'Every vector of environment answers (per-request injection delay, per-message wire stall, memory response delay and response order, flush cycle, restart delay) with <= 3 (quick) / <= 4 (thorough) non-default answers is executed on a fresh instance; a port-level monitor checks order, exactly-once, payload, forward fidelity, capacity and flush discipline in every execution.',
-   'Trusted: akita SerialEngine/Port; the monitor; bounds = 3-5 requests, buffer 1-3, width 1-2, flush at cycles 1-12. Requester is silent during a flush.',
-   'DESIGN.md §4 C15', 'E1+E4'),
- 'C16': (MC, 'stateless deviation-bounded exhaustive exploration of the real component under an explorer-driven environment',
-   'Real addresstranslator.Comp under the real akita SerialEngine; the environment plays requester, translation service (non-identity page table, two PIDs), two interleaved memory modules and the controller. '
-   'Every vector of environment answers (injection delays, stalls of the Top/Bottom/Translation wires, translation and memory reply delay and order, flush cycle, restart delay) with <= 3 (quick) / <= 4 (thorough) non-default answers is executed; the monitor checks physical address = frame(PID,page)+offset, size/data/mask fidelity, destination module, exactly-once forward and response, original ID, payload, and flush discipline.',
-   'Trusted: akita SerialEngine/Port; the monitor. Bounds: 3-5 accesses over 2 pages x 2 PIDs, width 1-2, flush at cycles 1-14; accesses do not cross pages; requester silent during a flush.',
-   'DESIGN.md §4 C16', 'E1+E4'),
- 'C17': (MC, 'exhaustive configuration lattice x stateless deviation-bounded exploration of arrival timings on the real component',
-   'Real simplebankedmemory.Comp under the real akita SerialEngine for every configuration in banks{1,2,4} x pipeline width{1,2} x depth{1,2} x stage latency{1,2} x post-buffer{1,2} x port buffer{1,4} x row tracking{off,(2^7,1),(2^7,3)} and 8 request sequences (RAW, WAW, WAR, masked, sub-range, two banks, row switch, same-row triple; 2-6 requests). '
-   'For each, every vector of arrival delays and response-wire stalls with <= 2 (quick) / <= 3 (thorough) non-default answers is executed; oracle = flat byte array applied in arrival order (read data, exactly one response each, final Storage contents).',
-   'Trusted: akita SerialEngine/Port/Storage; the flat reference. Accesses stay inside one 64 B interleave unit. Known finding (open): lane overtaking with pipeline width 2 comes from akita pipelining and is listed by signature; the row-miss reordering was repaired by a fix: commit.',
-   'DESIGN.md §4 C17', 'E1+E4'),
- 'C18': (MC, 'stateless deviation-bounded exhaustive exploration of the real RDMA engine under an explorer-driven environment (+ configuration lattice over GPU sets when available)',
-   'Part (b): real rdma.Comp under the real akita SerialEngine; the environment plays L1 requesters, local L2 modules, remote RDMA engines (as owners and as requesters) and the command processor. Every vector of environment answers (injection delays, stalls on the four data wires, owner reply delay and order, drain cycle, restart delay, L1 traffic arriving while paused) with <= 3 (quick) / <= 4 (thorough) non-default answers is executed; the monitor checks forwarding to the owner from the address table exactly once with unchanged address/size/data/mask, one reply to the originator with the original ID and the owner payload, DrainRsp only with both transaction tables empty, nothing forwarded between DrainRsp and RestartRsp, and paused traffic served after restart. Part (a) (same final data on 1/2/4 GPUs, plain and unified) is a configuration lattice run by the same binary.',
-   'Trusted: akita SerialEngine/Port; the monitor; valid control protocol order; unique addresses per scenario. Bounds: 2-3 accesses per direction, port buffers 1-2, drain at cycles 1-12.',
-   'DESIGN.md §4 C18', 'E1+E4'),
- 'C19': (MC, 'stateless deviation-bounded exhaustive exploration of two real page-migration controllers under an explorer-driven environment',
-   'Two real PageMigrationControllers under one real akita SerialEngine; the environment owns both local memories (byte arrays), both command processors and the inter-PMC wire. Page sizes 64/128/256 B x 6 request sequences (single, queued, arriving during a migration, both directions, staggered, three). Every vector of environment answers (memory reply delay/order, wire delay, stalls on all six 1-entry ports) with <= 2 (quick) / <= 3 (thorough) non-default answers is executed. Oracle: destination page == source page, no other byte of either memory changed, one completion per request in order, completion only after all write acknowledgements and after the page is fully copied, queued requests served.',
-   'Trusted: akita SerialEngine/Port; the byte-array memories. No concurrent writer of migrating pages; FIFO network. The driver-side mapping update is covered by C10.',
-   'DESIGN.md §4 C19', 'E1+E4'),
-}
+claimed = {os.path.basename(f)[:-5]: json.load(open(f)) for f in glob.glob(os.path.join(ROOT, 'tools/claims/C*.json'))}
 checks = []
 for p in props:
     i = p['id']
     if i not in claimed: continue
-    cat, tech, text, note, ref, eng = claimed[i]
-    checks.append({
+    c = claimed[i]
+    e = {
         'property_id': i,
         'quick_cmd': f'./run.sh {i} quick',
         'thorough_cmd': f'./run.sh {i} thorough',
         'evidence_file': f'/verif/evidence/{i}.json',
         'replay_cmd_template': f'./run.sh {i} --replay {{path}}',
-        'engine': eng,
-        'level_claimed': {'category': cat, 'text': text, 'design_ref': ref},
-        'level_note': note,
-        'technique': tech,
-    })
-na_reason = {}
+        'engine': c.get('engine', ''),
+        'level_claimed': {'category': c['category'], 'text': c['text'], 'design_ref': c.get('design_ref', '')},
+        'level_note': c['note'],
+        'technique': c['technique'],
+    }
+    checks.append(e)
+na_reason = json.load(open(os.path.join(ROOT, 'tools/not_applicable.json'))) if os.path.exists(os.path.join(ROOT, 'tools/not_applicable.json')) else {}
 na = [{'property_id': p['id'], 'reason': na_reason.get(p['id'], 'check not built yet in this session (designed in DESIGN.md §4; will be claimed once its harness exists and passes on the unchanged tree)')}
       for p in props if p['id'] not in claimed]
-hooks_commits = [l.strip() for l in open(os.path.join(ROOT, 'hooks_commits.txt'))] if os.path.exists(os.path.join(ROOT, 'hooks_commits.txt')) else []
+hc = os.path.join(ROOT, 'hooks_commits.txt')
+hooks_commits = [l.strip() for l in open(hc) if l.strip()] if os.path.exists(hc) else []
+def serves(tag): return [i for i in sorted(claimed) if tag in claimed[i].get('engine', '')]
 m = {
  'version': 1,
  'setup_cmd': './setup.sh',
  'hooks': {
    'guard': 'verif',
-   'enable': 'go build -tags verif (run.sh passes it to every check build; files are *_verif.go / verif_hooks.go with //go:build verif)',
+   'enable': 'go build -tags verif (run.sh passes it to every check build; hook files are verif_hooks*.go with //go:build verif)',
    'baseline_off_cmd': 'cd /repo && GOFLAGS=-mod=mod go build ./... && GOFLAGS=-mod=mod go test -vet=off -count=1 -timeout 25m ./...',
    'source_commits': hooks_commits,
    'add_only': True,
  },
  'engines': [
-   {'name': 'E1', 'path': 'mc/explore', 'serves_properties': sorted(claimed), 'kind_free_text': 'stateless deviation-bounded exhaustive choice-sequence explorer with replay, determinism guard and optional state cache'},
-   {'name': 'E4', 'path': 'mc/world', 'serves_properties': [c for c in sorted(claimed) if 'E4' in claimed[c][5]], 'kind_free_text': 'world harness: real akita engine + passive wires + explorer-driven environment agent'},
+   {'name': 'E1', 'path': 'mc/explore', 'serves_properties': serves('E1'), 'kind_free_text': 'stateless deviation-bounded exhaustive choice-sequence explorer with replay, determinism guard and optional state cache'},
+   {'name': 'E4', 'path': 'mc/world', 'serves_properties': serves('E4'), 'kind_free_text': 'world harness: real akita engine + passive wires + explorer-driven environment agent'},
+   {'name': 'harness', 'path': 'mc/harness', 'serves_properties': sorted(claimed), 'kind_free_text': 'front end: tiers, known findings, replay files, evidence, exit codes, parallel enumeration'},
  ],
  'checks': checks,
  'not_applicable': na,
- 'notes': 'All checks are Go programs under mc/checks/<id>, rebuilt by run.sh from /repo\'s working tree with -tags verif. Exit 0 held / 1 VIOLATION / 2 infrastructure error. known_findings.json lists genuine defects by signature.',
+ 'notes': 'All checks are Go programs under mc/checks/<id>, rebuilt by run.sh from /repo\'s working tree with -tags verif. Exit 0 held / 1 VIOLATION / 2 infrastructure error. known_findings.json lists genuine defects by signature (open ones print KNOWN-FINDING; fixed ones suppress nothing).',
 }
 json.dump(m, open(os.path.join(ROOT, 'MANIFEST.json'), 'w'), indent=1)
-print('claimed', len(checks), 'not_applicable', len(na))
+print('claimed', len(checks), sorted(claimed), 'not_applicable', len(na))
